@@ -58,6 +58,8 @@ RECURSIVE SubOps(_, _, _)
 SubOps(s, k, closed) ==
   IF k > Len(s) THEN (IF closed THEN << <<"Z">> >> ELSE <<>>)
   ELSE << <<IF k = 1 THEN "M" ELSE "L", s[k][1], s[k][2]>> >> \o SubOps(s, k + 1, closed)
+\* one variant in six begins the path with LineTo instead of MoveTo (same subpath)
+NoMove(ops, h) == IF ops # <<>> /\ (h \div 29) % 6 = 0 THEN << <<"L", ops[1][2], ops[1][3]>> >> \o Tail(ops) ELSE ops
 RECURSIVE AllOps(_, _, _)
 \* a subpath is only closed when its closing segment has integer length
 ClosingOK(s) == LET dx == s[1][1] - s[Len(s)][1]  dy == s[1][2] - s[Len(s)][2]
@@ -76,6 +78,6 @@ Variant(j) ==
                                            dash_offset |-> Offsets[((h \div 23) % Len(Offsets)) + 1]]
                ELSE style0
   IN [id |-> ToString(<<"gk", FAMILY, hs, j>>), fam |-> "stroke", kind |-> "stroke", w |-> SIZE, h |-> SIZE, den |-> 1,
-      ops |-> AllOps(subs, 1, h), style |-> style, ctm |-> tr, want_dash_path |-> (DASH >= 1), k |-> FAMILY]
+      ops |-> NoMove(AllOps(subs, 1, h), h), style |-> style, ctm |-> tr, want_dash_path |-> (DASH >= 1), k |-> FAMILY]
 Emit == Done => \A j \in 0..(NVAR - 1) : PrintT(ToJson(Variant(j)))
 =============================================================================
